@@ -7,6 +7,7 @@ from rv.model import micheline_bin as MB
 from rv.model import pack as P
 from rv.model import types as T
 
+ODD_TYPES = []
 ENV_FIELDS = ['amount', 'balance', 'now', 'level', 'min_block_time', 'total_voting_power']
 
 
@@ -102,6 +103,9 @@ def slot_diff(ms, ps, mode='both'):
         if norm_value(mv, mt) != norm_value(pv, mt):
             return 'value', 'value %r, expected %r' % (pv, mv)
     except Exception as e:
+        if mv == pv:
+            ODD_TYPES.append((mt, mv))
+            return None      # equal values under a declared type that does not describe them (a C02 matter, not a value one)
         return 'value', 'incomparable %r vs %r (%r)' % (pv, mv, e)
     return None
 
